@@ -16,7 +16,7 @@ pub mod brush_parser { pub mod word {
 } }
 pub trait VxOwned { spec fn vx_view(&self) -> Seq<char>; fn vx_owned(self) -> (r: String) ensures r@ == self.vx_view(); }
 impl VxOwned for String { open spec fn vx_view(&self) -> Seq<char> { self@ } #[verifier::external_body] fn vx_owned(self) -> (r: String) { self } }
-pub struct WordExpander { pub disable_command_substitutions: bool, pub u: u8 }
+pub struct WordExpander { pub disable_command_substitutions: bool, pub in_double_quotes: bool, pub u: u8 }   // projection (fields checked)
 pub uninterp spec fn tilde_spec(e: brush_parser::word::TildeExpr) -> Result<Seq<char>, error::Error>;
 impl WordExpander {
     // expansion.rs expand_tilde_expression (home directory / $PWD / $OLDPWD / user lookups): NOT verified, result uninterpreted
@@ -84,3 +84,20 @@ pub fn string_truncate(s: &mut String, n: usize)
     requires boundary(old(s)@, n as int),
     ensures exists|k: int| boundary_at(old(s)@, n as int, k) && final(s)@ == old(s)@.take(k)
 { unimplemented!() }
+
+// ---- double-quoted sequences.  The pieces inside "..." are expanded with WordExpander::in_double_quotes set (parameter words rely
+//  on it: `${p:+"$x"}` strips its own quotes when an enclosing double-quote pass will make the result unsplittable), and the flag
+//  must be back to what it was on EVERY exit of the arm, or the rest of the word is expanded as if it were inside quotes.
+#[verifier::external_body] pub struct WordPieceWithSource { _p: u8 }
+pub open spec fn all_unsplittable(fs: Seq<WordField>) -> bool {
+    forall|i: int, j: int| 0 <= i < fs.len() && 0 <= j < fs[i].0@.len() ==> (#[trigger] fs[i].0@[j]) is Unsplittable
+}
+impl WordExpander {
+    // process_double_quoted_pieces: NOT verified; ASSUMED to be called with the flag set, to leave it as found and to yield unsplittable pieces only
+    #[verifier::external_body]
+    pub fn process_double_quoted_pieces(&mut self, pieces: Vec<WordPieceWithSource>) -> (r: Result<Vec<WordField>, error::Error>)
+        requires old(self).in_double_quotes,
+        ensures final(self).in_double_quotes == old(self).in_double_quotes, final(self).disable_command_substitutions == old(self).disable_command_substitutions,
+                r is Ok ==> all_unsplittable(r->Ok_0@),
+    { unimplemented!() }
+}
